@@ -504,6 +504,40 @@ class MirIndex:
             if m and '::{closure#' in nm:
                 self.closures.setdefault(m.group(1), []).append(idx)
 
+    def _index_consts(self):
+        self.consts = {}
+        data = self.data
+        for m in re.finditer(rb'^(?:const|static(?: mut)?) ([^\n]*?): ([^\n]*?) = ([^\n]*)$', data, re.M):
+            name = m.group(1).decode()
+            ty = m.group(2).decode()
+            rhs = m.group(3).decode().strip()
+            if rhs == '{':
+                e = data.find(b'\n}\n', m.end())
+                body = data[m.end():e + 2].decode('utf-8', 'replace')
+                self.consts.setdefault(name, []).append((ty, None, 'fn %s() -> %s {' % (name, ty) + body))
+            else:
+                self.consts.setdefault(name, []).append((ty, rhs.rstrip(';'), None))
+
+    def find_const(self, path):
+        """named / promoted constant by (possibly partially qualified) path -> (ty, inline_rhs, fn_text)"""
+        if not hasattr(self, 'consts'):
+            self._index_consts()
+        hits = []
+        for nm, lst in self.consts.items():
+            if nm == path or nm.endswith('::' + path) or path.endswith('::' + nm):
+                hits.extend((nm, x) for x in lst)
+        if len(hits) == 1:
+            return hits[0][1]
+        if len(hits) > 1:
+            ex = [h for h in hits if h[0] == path]
+            if len(ex) == 1:
+                return ex[0][1]
+            # all identical inline values are fine
+            vals = {h[1][1] for h in hits}
+            if len(vals) == 1 and None not in vals:
+                return hits[0][1]
+        return None
+
     def get(self, idx):
         if idx not in self._cache:
             header, st, e = self.offsets[idx]
